@@ -545,6 +545,8 @@ class SVGLexicalParser:
                         self._flag(),
                         self._rcoord(),
                     )
+                    if rx is None or ry is None or rotation is None or arc is None:
+                        raise ValueError
                     if sweep is None:
                         raise ValueError
                     if coord is None:
@@ -562,6 +564,14 @@ class SVGLexicalParser:
                         self._flag(),
                         self._coord(),
                     )
+                    if (
+                        rx is None
+                        or ry is None
+                        or rotation is None
+                        or arc is None
+                        or sweep is None
+                    ):
+                        raise ValueError
                     if coord is None:
                         coord = self.inline_close
                         if coord is None:
